@@ -50,6 +50,7 @@ TOL_SVD = 1e-7
 # prover side -- `prove(tier, seed)` (E1 call-site obligations for perm_sign / permutation_operator) is added HERE
 # by the main agent.  Do not define it in the executor section below.
 # =============================================================================================
+from props.C18_prove import prove  # noqa: E402,F401
 
 
 # =============================================================================================
